@@ -30,7 +30,7 @@ ASSUMPTIONS = ['cookie oracle applies to polling/JSONP opens (a WebSocket open '
                'the probe handshake is attempted only when '
                'max_http_buffer_size >= 6 (the probe frame itself)']
 REQUIRED = ['open_reference', 'upgrade_probe', 'reject_followups', 'cookie',
-            'greeting_after_open']
+            'greeting_after_open', 'overlapping_opens']
 SHARD_TIMEOUT = {'quick': 300, 'thorough': 3000}
 
 PI = [25, 1, 0.5, 1.5, 0.25, [25, 5], [1.5, 0.7], [0.2, 0.1]]
@@ -333,6 +333,83 @@ def _cell(rec, sim, case, pi, pt, mb, au, tr, cookie_expect, out, okind,
         rec.sample({'cell': describe(case['cell']), 'open': o})
 
 
+def run_overlap(rec, spec):
+    """Two (or three) open requests overlapping: each next one is processed
+    while the previous client's connect handler is still running (a slow /
+    awaiting handler). Every client must be told ITS OWN sid - the one its
+    connect handler received - and read only its own greeting."""
+    from vf.simbase import decode_payload
+    srv, n, outcomes = spec['srv'], spec['n'], spec['outcomes']
+    case = {'overlap': dict(spec)}
+    rec.evaluations += 1
+    rec.count('overlapping_opens')
+    rec.key('overlap/%s/%d/%s' % (srv, n, outcomes))
+    sim = scen.make_sim(srv, handler_cfg={
+        'connect': list(outcomes), 'suspend': {'connect': 0.5}},
+        async_handlers_coro=True)
+
+    def Vv(key, msg):
+        rec.viol(key, msg + ' | OVERLAPPING OPENS server=%s n=%d handler '
+                 'outcomes=%r' % (srv, n, outcomes), case)
+    try:
+        tickets = []
+        for k in range(n):
+            tickets.append(sim.request('GET', {'transport': 'polling',
+                                               'EIO': '4'}, {}))
+            sim.quiesce()
+            sim.advance(0.125)
+        sim.advance(2)
+        sim.quiesce()
+        entered = [e['sid'] for e in sim.events
+                   if e['ev'] == 'connect-entered']
+        if len(entered) != n:
+            Vv('connect-count', 'connect handler entered %d times for %d '
+               'open requests' % (len(entered), n))
+            return
+        told = []
+        for k, t in enumerate(tickets):
+            accept = outcomes[k] is None or outcomes[k] is True
+            if not t.done:
+                Vv('open-hangs', 'open request %d did not complete' % k)
+                return
+            if not accept:
+                if t.code != 401:
+                    Vv('reject-not-401', 'open %d rejected by its handler '
+                       'answered %r' % (k, t.status))
+                told.append(None)
+                continue
+            try:
+                pk = decode_payload(t.text())
+                told.append(pk[0][1]['sid'] if pk[0][0] == 0 else '?')
+            except Exception:
+                told.append('?')
+            if told[-1] != entered[k]:
+                Vv('open-sid', 'client %d was told sid %r in its OPEN packet, '
+                   'its connect handler was given %r (all handler sids: %r)'
+                   % (k, told[-1], entered[k], entered))
+        # each accepted client reads only what was sent to its own session
+        for k, sid in enumerate(told):
+            if sid in (None, '?'):
+                continue
+            sim.app_call('send', entered[k], 'for-%d' % k)
+        sim.quiesce()
+        for k, sid in enumerate(told):
+            if sid in (None, '?'):
+                continue
+            fake = type('H', (), {'sid': sid})()
+            p = sim.poll(fake)
+            sim.quiesce()
+            got = []
+            if p.done and p.code == 200:
+                got = [d for tp, d in decode_payload(p.text()) if tp == 4]
+            if got != ['for-%d' % k]:
+                Vv('open-sid-delivery', 'client %d polling with the sid of '
+                   'its OPEN packet read %r, expected its own greeting' % (
+                       k, got))
+    finally:
+        sim.teardown()
+
+
 def plan(tier, seed):
     allc = cells(tier, seed)
     rng = gen.mkrng('c11', seed)
@@ -358,11 +435,20 @@ def plan(tier, seed):
     chosen = list(chosen) + extra
     rng.shuffle(chosen)
     n = 16
-    return [{'cells': chosen[i::n]} for i in range(n)]
+    shards = [{'cells': chosen[i::n]} for i in range(n)]
+    over = []
+    for srv in SRV:
+        for outs in ([None, None], [None, None, None], [None, False],
+                     [False, None], ['no', None, True], [None, 'raise']):
+            over.append({'srv': srv, 'n': len(outs), 'outcomes': outs})
+    shards.append({'cells': [], 'overlaps': over})
+    return shards
 
 
 def run_shard(spec):
     rec = Rec()
+    for o in spec.get('overlaps', []):
+        scen.run_cases(rec, [o], run_overlap)
     scen.run_cases(rec, [tuple(c) for c in spec['cells']], run_cell)
     if len(spec['cells']) > 5000:
         rec.extra['exhaustive'] = True
@@ -371,5 +457,8 @@ def run_shard(spec):
 
 def replay(case):
     rec = Rec()
+    if 'overlap' in case:
+        run_overlap(rec, case['overlap'])
+        return rec.violations
     run_cell(rec, tuple(case['cell']))
     return rec.violations
